@@ -518,6 +518,9 @@ func c07Lookup(w *World, cf *ctxFacts, r *Result, rule string) {
 				if def == nil || def.Referrers() == nil || len(*def.Referrers()) == 0 {
 					continue // pure existence test
 				}
+				if _, isStruct := def.Type().Underlying().(*types.Struct); !isStruct {
+					continue // not a definition (the alias table maps to a plain string; its existence test is the error exit of the name builder)
+				}
 				// does the definition flow into a tree node / constructor?
 				uses := nodeUsesOf(def, map[ssa.Value]bool{}, 0)
 				if len(uses) == 0 {
@@ -2080,6 +2083,21 @@ func IdentRule(w *World, r *Result, rule string) {
 							}
 						}
 					}
+					// the key builder is called with a scope flag that can be true although the use
+					// site's flag is not (the flag is taken from a list of attempts that holds true)
+					if callee := x.Call.StaticCallee(); callee != nil && callee != fn && w.IsProduct(pkgOf(callee)) {
+						for _, a := range x.Call.Args {
+							if !isBool(a.Type()) || a == ssa.Value(globalParam) {
+								continue
+							}
+							if _, isConst := a.(*ssa.Const); isConst {
+								continue
+							}
+							if boolMayBeTrue(a, 0, map[ssa.Value]bool{}) {
+								fallback = true
+							}
+						}
+					}
 				}
 			}
 		}
@@ -2090,6 +2108,50 @@ func IdentRule(w *World, r *Result, rule string) {
 			r.Bad(rule, key, w.Pos(fn.Pos()), "global definitions are stored under a file-prefixed key but looked up under a key computed from the scope of the USE site: inside a function of an imported file its own globals are not found (variable G has not been defined)")
 		}
 	}
+}
+
+// boolMayBeTrue: the constant true is among the values the bool can take (through merges,
+// elements of a list literal or of a list extended by append).
+func boolMayBeTrue(v ssa.Value, depth int, seen map[ssa.Value]bool) bool {
+	if v == nil || depth > 8 || seen[v] {
+		return false
+	}
+	seen[v] = true
+	switch x := v.(type) {
+	case *ssa.Const:
+		return x.Value != nil && isBool(x.Type()) && constant.BoolVal(x.Value)
+	case *ssa.Phi:
+		for _, e := range x.Edges {
+			if boolMayBeTrue(e, depth+1, seen) {
+				return true
+			}
+		}
+	case *ssa.UnOp:
+		return boolMayBeTrue(x.X, depth+1, seen)
+	case *ssa.IndexAddr:
+		return boolMayBeTrue(x.X, depth+1, seen)
+	case *ssa.Slice:
+		return boolMayBeTrue(x.X, depth+1, seen)
+	case *ssa.Alloc:
+		for _, r := range *x.Referrers() {
+			if ia, ok := r.(*ssa.IndexAddr); ok {
+				for _, rr := range *ia.Referrers() {
+					if st, ok := rr.(*ssa.Store); ok && boolMayBeTrue(st.Val, depth+1, seen) {
+						return true
+					}
+				}
+			}
+		}
+	case *ssa.Call:
+		if bi, ok := x.Call.Value.(*ssa.Builtin); ok && bi.Name() == "append" {
+			for _, a := range x.Call.Args {
+				if boolMayBeTrue(a, depth+1, seen) {
+					return true
+				}
+			}
+		}
+	}
+	return false
 }
 
 // identOrigin: the Variable value comes from a lookup, from a declaration made by the same
